@@ -228,10 +228,26 @@ impl<'tcx> Cx<'tcx> {
                         }
                     }
                     // string / byte-string literals: keep the contents
+                    let mut got_str = false;
                     if let Const::Val(cv @ ConstValue::Slice { .. }, _) = c.const_ {
                         if let Some(bytes) = cv.try_get_slice_bytes_for_diagnostics(tcx) {
                             if bytes.len() <= 512 {
                                 let _ = write!(s, ",\"str\":{}", js(&String::from_utf8_lossy(bytes)));
+                                got_str = true;
+                            }
+                        }
+                    }
+                    if !got_str {
+                        if let ty::Ref(_, inner, _) = t.kind() {
+                            if inner.is_str() {
+                                let r = std::panic::catch_unwind(std::panic::AssertUnwindSafe(|| c.const_.eval(tcx, env, rustc_span::DUMMY_SP)));
+                                if let Ok(Ok(cv @ ConstValue::Slice { .. })) = r {
+                                    if let Some(bytes) = cv.try_get_slice_bytes_for_diagnostics(tcx) {
+                                        if bytes.len() <= 512 {
+                                            let _ = write!(s, ",\"str\":{}", js(&String::from_utf8_lossy(bytes)));
+                                        }
+                                    }
+                                }
                             }
                         }
                     }
